@@ -737,6 +737,16 @@ func c10mutations(r *mon.Rand, ptr any) []c10mut {
 		out = append(out,
 			c10mut{"parent payload changed", &cose.SignMessage{Headers: p.Headers, Payload: flipBit(p.Payload, r), Signatures: p.Signatures}, false},
 			c10mut{"parent unprotected headers changed", &cose.SignMessage{Headers: unprotChange(p.Headers), Payload: p.Payload, Signatures: p.Signatures}, true},
+			// a countersignature over a COSE_Sign body covers the body's protected bytes and the payload, not the
+			// signers: another (still pending) co-signer slot, or the signers in another order, change nothing
+			c10mut{"a pending co-signer slot appended to the COSE_Sign parent", &cose.SignMessage{Headers: p.Headers, Payload: p.Payload, Signatures: append(append([]*cose.Signature{}, p.Signatures...), &cose.Signature{Headers: cose.Headers{Protected: cose.ProtectedHeader{int64(1): cose.AlgorithmES256}}})}, true},
+			c10mut{"the COSE_Sign parent's signers reversed", &cose.SignMessage{Headers: p.Headers, Payload: p.Payload, Signatures: func() []*cose.Signature {
+				o := append([]*cose.Signature{}, p.Signatures...)
+				for a, b := 0, len(o)-1; a < b; a, b = a+1, b-1 {
+					o[a], o[b] = o[b], o[a]
+				}
+				return o
+			}()}, true},
 		)
 	case *cose.Signature:
 		if h, ok := mutateProtected(r, p.Headers); ok {
